@@ -5,6 +5,7 @@ import (
 	"go/constant"
 	"go/token"
 	"go/types"
+	"strings"
 
 	"golang.org/x/tools/go/ssa"
 
@@ -242,6 +243,83 @@ func c06r2(c *core.Ctx) {
 		})
 		c.Check(good, "packet-length=len(value)@"+fname(pk), pk.Pos(), "packet.length is the count that bounds packet.value", "packet.length is not the length of packet.value")
 	}
+	packetsOnlyFromPayload(c)
+}
+
+// packetsOnlyFromPayload: every packet that is put on the list of packets to seal was filled by a read of the payload — its length is
+// the count of that read. A packet made up otherwise (an empty "terminator" after a full last frame, padding) is a frame the
+// specification does not have: a conforming peer hands it up as data or, at least, its nonce counter is one ahead from then on.
+func packetsOnlyFromPayload(c *core.Ctx) {
+	p := c.P
+	tPacket := mod + "/crypto.packet"
+	n := 0
+	for _, f := range libFuncs(p) {
+		if !strings.HasSuffix(pkgPathOf(f), "/crypto") {
+			continue
+		}
+		core.Instrs(f, func(i ssa.Instruction) {
+			call, ok := i.(*ssa.Call)
+			if !ok {
+				return
+			}
+			if b, isB := call.Call.Value.(*ssa.Builtin); !isB || b.Name() != "append" {
+				return
+			}
+			sl, isSl := call.Type().Underlying().(*types.Slice)
+			if !isSl || !core.TypeIs(sl.Elem(), tPacket) {
+				return
+			}
+			vals := appendedValues(call)
+			if len(vals) == 0 {
+				if len(call.Call.Args) == 2 && !core.IsNilConst(call.Call.Args[1]) {
+					c.Note("packet-append@"+fname(f), posOf(call), "a whole slice of packets is appended (not an element list)")
+				}
+				return
+			}
+			for _, v := range vals {
+				n++
+				o := structOrigin(v, 4)
+				if o == nil {
+					c.Note("packet-origin@"+fname(f), posOf(call), "the appended packet is not a local composite value")
+					continue
+				}
+				fromRead, stores := true, 0
+				for _, r := range *o.Referrers() {
+					fa, isFA := r.(*ssa.FieldAddr)
+					if !isFA {
+						continue
+					}
+					if _, isLen := core.FieldAddrOf(fa, tPacket, "length"); !isLen {
+						continue
+					}
+					for _, rr := range *fa.Referrers() {
+						st, isSt := rr.(*ssa.Store)
+						if !isSt || st.Addr != ssa.Value(fa) {
+							continue
+						}
+						stores++
+						if !core.AnySource(st.Val, func(sv ssa.Value) bool {
+							ci := core.CallResult(sv, 0, func(ci ssa.Instruction) bool {
+								if core.IsCall(ci, "io.ReadFull") || core.IsCall(ci, "io.ReadAtLeast") {
+									return true
+								}
+								cc := core.CallOf(ci)
+								return cc != nil && cc.IsInvoke() && cc.Method.Name() == "Read"
+							})
+							return ci != nil
+						}) {
+							fromRead = false
+						}
+					}
+				}
+				c.Check(fromRead && stores > 0, "packet-from-payload@"+fname(f), posOf(call), "the appended packet's length is the count of a read of the payload",
+					"a packet is put on the list whose length is not the count of a payload read (a made-up packet, e.g. an empty terminator after a full last frame): the stream contains a frame the specification does not have, and the peer's nonce counter is off by one afterwards")
+			}
+		})
+	}
+	if n == 0 {
+		c.Undecided("packet-from-payload", token.NoPos, "no packet is appended to a packet list anywhere in the crypto package")
+	}
 }
 
 func c06r3(c *core.Ctx) {
@@ -294,45 +372,51 @@ func c06r3(c *core.Ctx) {
 			}
 		})
 		c.Check(found, "reader-last-frame-test@"+fname(dec), dec.Pos(), "the reader's last-frame test compares with the same constant", "the reader's last-frame test does not compare with PacketLengthMax")
-		// polarity: after a frame shorter than the constant the message is complete (no further frame is read), after a full
-		// frame the next length is read
-		fm := buildFrameModel(dec)
-		if fm.length != nil {
-			nTests, good := 0, true
-			for _, b := range dec.Blocks {
-				iff, ok := b.Instrs[len(b.Instrs)-1].(*ssa.If)
-				if !ok {
-					continue
-				}
-				bo, ok := iff.Cond.(*ssa.BinOp)
-				if !ok {
-					continue
-				}
-				n, isK := core.ConstInt(bo.Y)
-				if !isK || n != v {
-					continue
-				}
-				shortIdx := -1 // successor taken when the frame is shorter than the constant
-				switch bo.Op {
-				case token.LSS, token.NEQ:
-					shortIdx = 0
-				case token.GEQ, token.EQL:
-					shortIdx = 1
-				}
-				if shortIdx < 0 {
-					continue
-				}
-				nTests++
-				again := func(from *ssa.BasicBlock) bool {
-					return core.Reach(from, nil, nil)[fm.length.call.Block()]
-				}
-				if again(b.Succs[shortIdx]) || !again(b.Succs[1-shortIdx]) {
-					good = false
-				}
+		lastFramePolarity(c, dec, v)
+	}
+}
+
+// lastFramePolarity: after a frame shorter than the frame size the message is complete (no further frame is read, whatever else is
+// known about the stream), after a full frame the next length is read.
+func lastFramePolarity(c *core.Ctx, dec *ssa.Function, v int64) {
+	// polarity: after a frame shorter than the constant the message is complete (no further frame is read), after a full
+	// frame the next length is read
+	fm := buildFrameModel(dec)
+	if fm.length != nil {
+		nTests, good := 0, true
+		for _, b := range dec.Blocks {
+			iff, ok := b.Instrs[len(b.Instrs)-1].(*ssa.If)
+			if !ok {
+				continue
 			}
-			c.Check(good && nTests > 0, "reader-last-frame-polarity@"+fname(dec), dec.Pos(), "a short frame ends the message, a full frame is followed by the next length read",
-				"the last-frame test is inverted: after a full frame the reader stops (the message is cut at 1024 bytes), after the short last frame it goes on reading and swallows the next message")
+			bo, ok := iff.Cond.(*ssa.BinOp)
+			if !ok {
+				continue
+			}
+			n, isK := core.ConstInt(bo.Y)
+			if !isK || n != v {
+				continue
+			}
+			shortIdx := -1 // successor taken when the frame is shorter than the constant
+			switch bo.Op {
+			case token.LSS, token.NEQ:
+				shortIdx = 0
+			case token.GEQ, token.EQL:
+				shortIdx = 1
+			}
+			if shortIdx < 0 {
+				continue
+			}
+			nTests++
+			again := func(from *ssa.BasicBlock) bool {
+				return core.Reach(from, nil, nil)[fm.length.call.Block()]
+			}
+			if again(b.Succs[shortIdx]) || !again(b.Succs[1-shortIdx]) {
+				good = false
+			}
 		}
+		c.Check(good && nTests > 0, "reader-last-frame-polarity@"+fname(dec), dec.Pos(), "a short frame ends the message, a full frame is followed by the next length read",
+			"the last-frame test is inverted: after a full frame the reader stops (the message is cut at 1024 bytes), after the short last frame it goes on reading and swallows the next message")
 	}
 }
 
